@@ -610,6 +610,17 @@ impl<'a, 'tcx> Cx<'a, 'tcx> {
         m.insert("args".into(), J::A(args.iter().map(|a| J::s(&a.to_string())).collect()));
         m.insert("name".into(), J::s(&tcx.opt_item_name(d).map(|s| s.to_string()).unwrap_or_default()));
         m.insert("local".into(), J::B(d.is_local()));
+        // receiver kind of the callee: does it take `&mut` as first input?
+        if matches!(tcx.def_kind(d), DefKind::Fn | DefKind::AssocFn) {
+            let sig = tcx.fn_sig(d).instantiate_identity().skip_norm_wip().skip_binder();
+            if let Some(first) = sig.inputs().first() {
+                if let ty::Ref(_, _, mt) = first.kind() {
+                    m.insert("recv".into(), J::s(if mt.is_mut() { "mut" } else { "ref" }));
+                } else {
+                    m.insert("recv".into(), J::s("val"));
+                }
+            }
+        }
         if d.is_local() {
             m.insert("dp".into(), J::s(&tcx.def_path(d).to_string_no_crate_verbose()));
         }
